@@ -755,6 +755,11 @@ func (r *runner) opPausedPersist(id int, fail bool) {
 		}
 	}
 	r.forceOverlap = 0
+	if low := w.nodes[t.ps]; low.cached() && low.priv {
+		// the second flush would write into a private store (no lock by design: it belongs to one
+		// goroutine) while the main goroutine reads through it
+		ovKind = 0
+	}
 	var ovDone chan res
 	ovEarly := false
 	startOverlap := func(win int) {
